@@ -2,6 +2,7 @@
 import os, json, struct
 from vlib.conform import conform, read_log
 from vlib.core import Infra
+from bhelp import conform_all, chunk
 
 EBIAS = 1100
 LATTICE = {
@@ -300,32 +301,6 @@ def random_rows(rng, n):
     return rows
 
 
-def conform_all(ctx, label, execs, harness, tcfg, pcfg, meta):
-    """conform() stops at a crash of the harness process; restart it on the executions after the crashed one."""
-    part = 0
-    while execs and part < 12:
-        st = {}
-
-        def rh(s, l):
-            rc, out, to = harness(s, l)
-            st["log"] = read_log(l)
-            return rc, out, to
-        lab = label if part == 0 else "%s_r%d" % (label, part)
-        conform(ctx, lab, execs, rh, "Trace_Checks", tcfg, pcfg, key_of, tlc_timeout=1800, meta=meta)
-        yield lab
-        log = st.get("log", [])
-        nlines = sum(len(e) for e in execs) + len(execs) - 1
-        if len(log) >= nlines and not any(e.get("op") in ("crashed", "unparsable") for e in log):
-            break
-        k = sum(1 for e in log if e.get("op") == "reset")
-        execs = execs[k + 1:]
-        part += 1
-
-
-def chunk(lines, size):
-    return [lines[i:i + size] for i in range(0, len(lines), size)]
-
-
 def run(ctx):
     quick = ctx.quick
     exe = ctx.build_harness("checks", "asan")
@@ -369,7 +344,7 @@ def run(ctx):
         ctx.rng.shuffle(rws)
         lines = [row_to_line(r_, ctx.rng) for r_ in rws]
         execs = chunk(lines, per)
-        for lab in conform_all(ctx, label, execs, harness, tcfg, pcfg, {"source": label}):
+        for lab in conform_all(ctx, label, execs, harness, "Trace_Checks", tcfg, pcfg, key_of, meta={"source": label}):
             prev = 0
             for e in read_log(os.path.join(ctx.work, lab + ".log.ndjson")):
                 if e.get("op") == "reset":
